@@ -1400,6 +1400,13 @@ mut("C15", "exit-on-error-looks-at-first", "R15-3", "set -e tests the first resu
                 let status = last.status;""", """            if let Some(last) = cr_list.first() {
                 let status = last.status;"""))
 
+mut("C15", "set-func-keeps-first", "R15-9|shell::Shell::set_func|overwrite", "a second definition of a function is ignored",
+    (S, "        self.funcs.insert(name.to_string(), value.to_string());",
+     "        self.funcs.entry(name.to_string()).or_insert_with(|| value.to_string());"))
+mut("C17", "add-alias-keeps-first", "R17-6|shell::Shell::add_alias|overwrite", "redefining an alias keeps the old value",
+    (S, "        self.aliases.insert(name.to_string(), value.to_string());",
+     "        self.aliases.entry(name.to_string()).or_insert_with(|| value.to_string());"))
+
 # ------------------------------------------------------------------ more refactors
 ref("history-params-vec", ["C18"], "bind the INSERT parameters through a params! style slice",
     (H, "    match conn.execute(&sql, [line.trim(), info.as_str()]) {",
